@@ -44,8 +44,8 @@ CMP_INDEX = {
     IR + '::load_index_for_timestamp_impl': ['(timestamp <= index_reader::parse_index(::next(…)).timestamp)'],
     IR + '::load_all_indexes_impl': ['((SegmentIndexReader::file_size(self) / 16) != Vec::len(Iterator::collect(…)))'],
 }
-_STOP = 're:^\\(index_range\\.end\\.offset <= \\(SegmentLogReader::read_next_batch\\(.*\\)\\.0\\.base_offset \\+ SegmentLogReader::read_next_batch\\(.*\\)\\.0\\.last_offset_delta\\)\\)$'
-_EOF1 = 're:^\\(SegmentLogReader::file_size\\(self\\) <= phi\\{.*\\}\\)$'
+_STOP = 're:^\\(index_range\\.end\\.position <= phi\\{.* \\| index_range\\.start\\.position\\}\\)$'     # stop at the batch the end index points to (positions, not offsets)
+_EOF1 = 're:^\\(SegmentLogReader::file_size\\(self\\) <= \\(SegmentLogReader::read_next_batch\\(.*\\)\\.1 \\+ phi\\{.*\\}\\)\\)$'    # this batch reaches the end of the file
 _EOF2 = 're:^\\(phi\\{.*\\} < SegmentLogReader::file_size\\(self\\)\\)$'
 CMP_LOG = {
     LR + '::load_batches_by_range_impl': [_STOP, _EOF1, _EOF2, '(0 == SegmentLogReader::file_size(self))'],          # stop at the batch containing the range end
